@@ -173,6 +173,7 @@ func (d *decoder) Layer(msg *protoscan.Message) (*Layer, error) {
 func (d *decoder) Feature(msg *protoscan.Message) (*geojson.Feature, error) {
 	feature := &geojson.Feature{Type: "Feature"}
 	var geomType vectortile.Tile_GeomType
+	hasGeom := false
 
 	for msg.Next() {
 		switch msg.FieldNumber() {
@@ -221,6 +222,7 @@ func (d *decoder) Feature(msg *protoscan.Message) (*geojson.Feature, error) {
 			if err != nil {
 				return nil, err
 			}
+			hasGeom = true
 		default:
 			msg.Skip()
 		}
@@ -228,6 +230,10 @@ func (d *decoder) Feature(msg *protoscan.Message) (*geojson.Feature, error) {
 
 	if msg.Err() != nil {
 		return nil, msg.Err()
+	}
+
+	if !hasGeom {
+		return nil, errors.New("feature has no geometry")
 	}
 
 	geo, err := d.Geometry(geomType)
